@@ -322,6 +322,34 @@ def rule_r10(chk, facts):
                    'the second Cleanup call after EXITM (ExpandEXITM, then GetNextLine) crashes' % (f.name, show(bad[1]), show(fld)))
 
 
+def rule_r11(chk, facts):
+    chk.rule('C03-R11', 'the name validators ChkSymbName() and ChkMacSymbName() return False for the empty string (constant '
+             'propagation through the validator and its helpers with the argument bound to ""): an empty macro/IRP '
+             'parameter name would reach ReplaceLine() as a zero-length search string, whose scan loop then never '
+             'advances', min_instances=2)
+    from .absint import Eval
+    P = facts.program('asl')
+    ev = Eval(P)
+    for fn in ('ChkSymbName', 'ChkMacSymbName'):
+        f = facts.func('asmsub.c', fn)
+        v = ev.call(f, [('ptr', '', 0)])
+        if v is None:
+            raise AnalysisBroken('%s(""): value not determined by constant propagation' % fn)
+        ok = v == 0
+        chk.ob('C03-R11', 'asmsub.c:%s:rejects-empty' % fn, ok, f.loc(), '%s("") == False' % fn if ok else
+               '%s("") evaluates to %r: the empty name is accepted as a parameter name; expanding a body line then loops '
+               'forever in ReplaceLine() (zero-length pattern) while the line buffer grows' % (fn, v))
+    # the consumers: every parameter-name list that feeds ReplaceLine is filled behind such a validator
+    n = 0
+    for f in P.all_funcs():
+        if f.unit.name != 'as.c':
+            continue
+        for b, i, ln, c in f.calls('ChkMacSymbName'):
+            n += 1
+    if n < 4:
+        raise AnalysisBroken('parameter-name validations in as.c not found')
+
+
 def run(chk, facts, info):
     rule_r1(chk, facts)
     rule_r2(chk, facts)
@@ -332,6 +360,7 @@ def run(chk, facts, info):
     from . import c03_nullbelief
     c03_nullbelief.run(chk, facts)
     rule_r10(chk, facts)
+    rule_r11(chk, facts)
     chk.note('Decided: divisor non-zero (R1), stack-head null guards (R2), external integer bounds (R3), '
              'string-copy capacities (R4). Not decided: hangs, heap lifetime, code generators\' private buffers.')
     chk.assumptions.append('malloc results are non-null; zero-initialised globals with a non-zero default are '
